@@ -223,6 +223,24 @@ theorem mainImpl_last (inherent : Toks) (inside xs : List GenItem) (im : GenImpl
   simp [mainImpl?, View.items, implsOf_append, implsOf]
 
 
+/-! ### re-applied sub-attributes -/
+
+theorem mem_reappliedSubs {mode : InputMode} {subs : List Attr} {a : Attr} (h : a ∈ reappliedSubs mode subs) : a ∈ subs := by
+  unfold reappliedSubs at h
+  split at h
+  · exact h
+  · exact (List.mem_filter.mp h).1
+
+theorem reappliedSubs_async {mode : InputMode} {subs : List Attr} {a : Attr} (ha : a ∈ subs) (hk : a.subKind = .asyncTrait) :
+    a ∈ reappliedSubs mode subs := by
+  unfold reappliedSubs
+  split
+  · exact ha
+  · exact List.mem_filter.mpr ⟨ha, by simp [hk]⟩
+
+theorem reappliedSubs_rawTrait (subs : List Attr) : reappliedSubs .rawTrait subs = subs := by
+  simp [reappliedSubs]
+
 /-! ### impl generics: lifetimes, then the macro's parameter, then the rest -/
 
 theorem filter_lifetimes_not (ps : List GParam) :
